@@ -3,7 +3,8 @@ Lemmas/WakerNSim — `Model/WakerN` with ONE writer thread is `Model/Waker` (rep
 
 `proj1` forgets the thread component of the waker names and the ghosts `lastReg` / `regMark`; every
 step of the one-writer instance of `Model/WakerN` is, under `proj1`, the step of `Model/Waker` with the
-same label, so every run of one is a run of the other (`run_one_writer`).
+same label, so every run of one is a run of the other (`run_one_writer`).  (The single-writer model
+has no foreign `do_shutdown()`: the instance is the one with `shutdowns = 0`.)
 -/
 import Penguin.Model.WakerN
 import Penguin.Lemmas.WakerN
@@ -94,9 +95,9 @@ theorem foldl_sim (ls : List Waker.Label) :
 /-- Every run of the single-writer model is, step for step, the run of `Model/WakerN` with one writer
     thread under the same schedule. -/
 theorem run_one_writer (credit polls : Nat) (actors : List ActorKind) (ls : List Waker.Label) :
-    ∃ w, (run ⟨credit, [polls], actors⟩ (ls.map lift1)).writers = [w] ∧
-      proj1 (run ⟨credit, [polls], actors⟩ (ls.map lift1)) w = Waker.run ⟨credit, polls, actors⟩ ls := by
-  have h0 : (init ⟨credit, [polls], actors⟩).writers = [initWriter polls] := rfl
+    ∃ w, (run ⟨credit, [polls], actors, 0⟩ (ls.map lift1)).writers = [w] ∧
+      proj1 (run ⟨credit, [polls], actors, 0⟩ (ls.map lift1)) w = Waker.run ⟨credit, polls, actors⟩ ls := by
+  have h0 : (init ⟨credit, [polls], actors, 0⟩).writers = [initWriter polls] := rfl
   obtain ⟨w, h1, h2⟩ := foldl_sim ls _ _ h0
   refine ⟨w, h1, ?_⟩
   unfold run Waker.run
